@@ -18,6 +18,7 @@ From Coq Require Import ZArith NArith List Bool.
 From Tup Require Import Lib.IdSpaceTy Lib.CommandTypes Lib.SystemTypes Gen.SystemGen Model.IdManager Model.UploadModel
   Model.SystemModel Spec.SystemSpec Spec.KittyProtoSpec Proofs.SystemStmt Proofs.SystemFacts Proofs.SystemCodec
   Proofs.SystemProofs Proofs.SystemPolicy.
+From Tup Require Lib.ByteStr Model.TmuxTemplate Model.SendModel Proofs.SendProofs Proofs.SystemWire.
 Import ListNotations.
 Open Scope N_scope.
 
@@ -118,3 +119,30 @@ Proof.
   split; [exact the_codec_ok|split; [intro p; reflexivity|split; [apply w_req_ok|split; [exact stale_history_repaired|]]]].
   cbn [premise_along inst_premise]. split; [exact I|split; [|exact I]]. right. left. vm_compute. reflexivity.
 Qed.
+
+(* 7. The same events at the level of BYTES (composition with C05/C06/C11 and C07/C14): what the library writes for a
+      transmission event, through GraphicsCommand.send with its n-layer tmux template and any max_size, is decoded by the
+      Spec terminal side (tmux unwrapping + protocol parser) to the event's control data (a=T, U=1, i, r, c) and, chunk by
+      chunk, to exactly its payload; a file-name transmission is one escape carrying exactly the file name. *)
+Theorem C08_wire_inline_transmission : forall (n : nat) t x data (max_size : Z) ws,
+  Model.TmuxTemplate.template n = Some t -> x_medium x = MDirect -> Lib.ByteStr.bytes_ok data ->
+  Model.SendModel.send (CTransmit (command_of x data)) t max_size = Model.SendModel.SendOk ws ->
+  exists cmds first rest,
+    cmds = first :: rest /\
+    Forall2 (Proofs.SendProofs.decodes_to n) ws cmds /\
+    concat (map Proofs.SendProofs.data_of cmds) = data /\
+    expected_fields first 97 = Some [84] /\ expected_fields first 85 = Some [49] /\
+    expected_fields first 105 = e_num (Some (x_id x)) /\
+    expected_fields first 114 = e_num (Some (x_rows x)) /\ expected_fields first 99 = e_num (Some (x_cols x)) /\
+    Forall (fun c => exists m, c = CMore m /\ m_image_id m = Some (x_id x)) rest.
+Proof. exact Proofs.SystemWire.tx_inline_wire. Qed.
+Print Assumptions C08_wire_inline_transmission.
+
+Theorem C08_wire_filename_transmission : forall (n : nat) t x name (max_size : Z) ws,
+  Model.TmuxTemplate.template n = Some t -> x_medium x <> MDirect -> Lib.ByteStr.bytes_ok name ->
+  Model.SendModel.send (CTransmit (command_of x name)) t max_size = Model.SendModel.SendOk ws ->
+  exists w, ws = [w] /\ Proofs.SendProofs.decodes_to n w (CTransmit (command_of x name)).
+Proof. exact Proofs.SystemWire.tx_filename_wire. Qed.
+Print Assumptions C08_wire_filename_transmission.
+
+(* the print half of the wire-level statement is in Props/C08wire.v (it lives in the placeholder vocabulary) *)
